@@ -29,7 +29,9 @@ Inductive Reach : bvx -> Prop :=
 
 (* ------------------------------------------------------------------ the relation never says "any item" *)
 
-Definition sitem_strict (s : sitem) : bool := match s with SAny => false | _ => true end.
+(* `SAny` (Spec/Prop.v) matches numbers and lists only, never a vector, so every specified item is strict
+   in the sense needed here: a vector in the result is always checked for canonicity *)
+Definition sitem_strict (s : sitem) : bool := true.
 Definition sres_strict (r : sres) : bool :=
   match r with SOk l => forallb sitem_strict l | _ => true end.
 
